@@ -58,11 +58,26 @@ where
         Some('-') => -1,
         _ => 1,
     });
-    let hex = string("0x")
-        .with(many1(hex_digit()))
-        .map(|x: String| u64::from_str_radix(&x, 16).unwrap() as i64);
-    let dec = many1(digit()).map(|x: String| x.parse::<i64>().unwrap());
-    (sign, attempt(hex).or(dec)).map(|(s, x)| s * x)
+    // Both forms yield (magnitude, is_hex); literals that do not fit in 64 bits are parse errors.
+    let hex = string("0x").with(many1(hex_digit())).and_then(|x: String| {
+        u64::from_str_radix(&x, 16)
+            .map(|v| (v, true))
+            .map_err(|_| StreamErrorFor::<I>::message_static_message("integer out of range"))
+    });
+    let dec = many1(digit()).and_then(|x: String| {
+        x.parse::<u64>()
+            .map(|v| (v, false))
+            .map_err(|_| StreamErrorFor::<I>::message_static_message("integer out of range"))
+    });
+    (sign, attempt(hex).or(dec)).and_then(|(s, (x, is_hex)): (i64, (u64, bool))| {
+        if is_hex {
+            // Hexadecimal literals denote a 64-bit pattern.
+            Ok((x as i64).wrapping_mul(s))
+        } else {
+            i64::try_from(s as i128 * x as i128)
+                .map_err(|_| StreamErrorFor::<I>::message_static_message("integer out of range"))
+        }
+    })
 }
 
 fn register<I>() -> impl Parser<I, Output = i64>
